@@ -322,7 +322,20 @@ def default_scalar(
         name,
         serialize=_identity,
         parse=_identity,
-        parse_literal=lambda node, _: node.value,
+        parse_literal=lambda node, _: _untyped_literal(node),
         description=description,
         nodes=nodes,
     )
+
+
+def _untyped_literal(node: _ast.Value) -> Any:
+    # Transparent conversion of a literal: scalar literals keep their
+    # ``value`` (source text for numbers), enum literals their name, list and
+    # object literals become lists and dicts.
+    if isinstance(node, _ast.NullValue):
+        return None
+    if isinstance(node, _ast.ListValue):
+        return [_untyped_literal(v) for v in node.values]
+    if isinstance(node, _ast.ObjectValue):
+        return {f.name.value: _untyped_literal(f.value) for f in node.fields}
+    return node.value  # type: ignore
